@@ -396,7 +396,14 @@ def rule_once(run):
               'source dictionary not recognised', where=gj.where())
 
 
+def rule_pair(run):
+    from .c08 import pair_rule
+    pair_rule(run, ['t2data'], set(['t2data']), floor=3,
+              only=lambda fi, owner: fi.name.startswith('convert_') or fi.name in ('delete_generator', 'clear_generators', 'delete_orphan_generators'))
+
+
 def check(run):
+    run.guarded('PAIR', rule_pair)
     run.guarded('POST', rule_post)
     run.guarded('FLOW', rule_flow)
     run.guarded('EOSFLOW', rule_eosflow)
